@@ -359,3 +359,21 @@ Lemma sorted_pairing_refuted :
   bls_pairs_case 0 4 3 (sort leq [:: 2%N; 3%N; 1%N]) [:: 2%N; 3%N; 1%N] = (false, false) /\
   bls_pairs_case 0 4 3 [:: 2%N; 3%N; 1%N] [:: 1%N; 2%N; 3%N] = (false, false).
 Proof. by vm_compute. Qed.
+
+(* ---- party identifiers versus ranks (C08) ----
+   parties = identifiers in rank order; the witnesses are made with the shares of the ranks; fix_rank = false combines them
+   at the identifiers (the pinned ProveKnowledgeOfSignature), fix_rank = true at the ranks (repaired) *)
+Definition pok_ids_case (fix_rank : bool) (w N t L : nat) (pat : seq nat) (parties sids : seq nat) : bool :=
+  let ws := [seq t_witness w N t L 1 pat (rank_of parties id) | id <- sids] in
+  let s' := (1 + 10 * w)%N in
+  verify_pok te tRO2 (tpp L) (t_tpk w N t L 0)
+    (prove_knowledge_ids tRO2 fix_rank (tpp L) (t_tpk w N t L 0) (t_blind L s' pat).2 parties sids ws
+       (nonce s' 30) (nonce s' 31) (nonce s' 32) (mkseq (fun i => nonce s' (40 + i)) L.+1)).
+
+(* parties {1,2,4}, t = 2, signers {1,4}: combined at the identifiers 1 and 4 the honest proof is rejected, combined at the
+   ranks 1 and 3 it verifies; signers {1,2} (identifier = rank) verify either way *)
+Lemma identifier_points_refuted :
+  pok_ids_case false 0 3 2 1 [:: 1%N] [:: 1; 2; 4]%N [:: 1; 4]%N = false /\
+  pok_ids_case true 0 3 2 1 [:: 1%N] [:: 1; 2; 4]%N [:: 1; 4]%N = true /\
+  pok_ids_case false 0 3 2 1 [:: 1%N] [:: 1; 2; 4]%N [:: 1; 2]%N = true.
+Proof. by vm_compute. Qed.
